@@ -2,6 +2,7 @@
    MarshalLengthBytes over the whole int64 range, DER minimality, round trip through GetLengthFromASN. *)
 From Gokrb5.lib Require Import Bytes JV.
 From Gokrb5.model Require Import LenOctets.
+From Gokrb5.model Require DER.
 
 Local Open Scope Z_scope.
 
@@ -199,9 +200,9 @@ Qed.
 Theorem marshal_len_short l : l <= 127 -> marshal_len l = Ok [l mod 256].
 Proof. intros. unfold marshal_len. destruct (Z.leb_spec l 127); [reflexivity | lia]. Qed.
 
-Theorem marshal_len_is_der l : 0 <= l < 2 ^ 56 -> marshal_len l = Ok (der_len l).
+Theorem marshal_len_is_der l : 0 <= l < 2 ^ 56 -> marshal_len l = Ok (der_len_spec l).
 Proof.
-  intros Hl. unfold marshal_len, der_len.
+  intros Hl. unfold marshal_len, der_len_spec.
   destruct (Z.leb_spec l 127).
   - destruct (Z.ltb_spec l 128); [|lia]. rewrite Z.mod_small by lia. reflexivity.
   - destruct (Z.ltb_spec l 128); [lia|].
@@ -237,10 +238,10 @@ Proof.
     + rewrite marshal_len_huge_panics by lia. discriminate.
 Qed.
 
-(* ------------------------------------------------------------------ der_len is the DER length *)
-Theorem der_len_is_der l : 0 <= l < 256 ^ 64 -> is_der_len l (der_len l).
+(* ------------------------------------------------------------------ der_len_spec is the DER length *)
+Theorem der_len_is_der l : 0 <= l < 256 ^ 64 -> is_der_len l (der_len_spec l).
 Proof.
-  intros Hl. unfold der_len, is_der_len.
+  intros Hl. unfold der_len_spec, is_der_len.
   destruct (Z.ltb_spec l 128); [left; split; [lia | reflexivity]|].
   right. split; [lia|]. exists (min_be 64 l []).
   split; [reflexivity|].
@@ -304,9 +305,9 @@ Qed.
 
 (* Round trip.  GetLengthFromASN takes a whole TLV with a one-octet identifier t: identifier, the length
    octets, then anything (normally the contents). *)
-Theorem len_octets_roundtrip_der t l r : 0 <= l < 2 ^ 63 -> get_length (t :: der_len l ++ r) = Ok l.
+Theorem len_octets_roundtrip_der t l r : 0 <= l < 2 ^ 63 -> get_length (t :: der_len_spec l ++ r) = Ok l.
 Proof.
-  intros Hl. unfold der_len. destruct (Z.ltb_spec l 128).
+  intros Hl. unfold der_len_spec. destruct (Z.ltb_spec l 128).
   - cbn [app]. unfold get_length. rewrite gindex_1. cbn [bind].
     destruct (Z.leb_spec l 127); [reflexivity | lia].
   - cbn [app]. pose proof (der_len_body_length l ltac:(lia)).
@@ -324,9 +325,9 @@ Proof.
   apply len_octets_roundtrip_der. lia.
 Qed.
 
-Theorem len_hdr_bytes_der t l r : 0 <= l < 2 ^ 63 -> len_hdr_bytes (t :: der_len l ++ r) = Ok (zlen (der_len l)).
+Theorem len_hdr_bytes_der t l r : 0 <= l < 2 ^ 63 -> len_hdr_bytes (t :: der_len_spec l ++ r) = Ok (zlen (der_len_spec l)).
 Proof.
-  intros Hl. unfold der_len. destruct (Z.ltb_spec l 128).
+  intros Hl. unfold der_len_spec. destruct (Z.ltb_spec l 128).
   - cbn [app]. unfold len_hdr_bytes. rewrite gindex_1. cbn [bind].
     destruct (Z.leb_spec l 127); [reflexivity | lia].
   - cbn [app]. unfold len_hdr_bytes. rewrite gindex_1. cbn [bind].
@@ -344,12 +345,56 @@ Qed.
 
 (* AddASNAppTag output parses back: identifier 0x60+tag, then the DER length of the contents *)
 Theorem add_app_tag_shape b tag : 0 <= tag < 31 -> zlen b < 2 ^ 63 ->
-  add_app_tag b tag = (96 + tag) :: der_len (zlen b) ++ b /\
+  add_app_tag b tag = (96 + tag) :: der_len_spec (zlen b) ++ b /\
   get_length (add_app_tag b tag) = Ok (zlen b).
 Proof.
   intros Ht Hb. unfold add_app_tag, ident_octets.
   destruct (Z.ltb_spec tag 31); [|lia]. cbn [app].
   split; [reflexivity|]. apply len_octets_roundtrip_der. pose proof (zlen_nonneg b). lia.
+Qed.
+
+(* ------------------------------------------------------------------ link to the codec's TLV layer (model/DER.v) *)
+Lemma be_min_min_be : forall f g n acc,
+  0 <= n < 2 ^ Z.of_nat f -> n < 256 ^ Z.of_nat g -> DER.be_min f n acc = min_be g n acc.
+Proof.
+  induction f as [| f IH]; intros g n acc Hf Hg.
+  - simpl in Hf. replace n with 0 by lia. rewrite min_be_zero. reflexivity.
+  - cbn [DER.be_min]. destruct g as [| g].
+    + simpl in Hg. replace n with 0 by lia. reflexivity.
+    + cbn [min_be]. destruct (Z.leb_spec n 0); [reflexivity|].
+      apply IH.
+      * split; [apply Z.div_pos; lia|]. apply Z.div_lt_upper_bound; [lia|].
+        rewrite Nat2Z.inj_succ, Z.pow_succ_r in Hf by lia.
+        pose proof (Z.pow_pos_nonneg 2 (Z.of_nat f) ltac:(lia) ltac:(lia)). lia.
+      * apply Z.div_lt_upper_bound; [lia|].
+        rewrite Nat2Z.inj_succ, Z.pow_succ_r in Hg by lia. lia.
+Qed.
+
+(* the independent DER length of this file and the length octets the schema codec writes are the same *)
+Theorem der_len_spec_codec l : 0 <= l < 256 ^ 64 -> der_len_spec l = DER.der_len l.
+Proof.
+  intros Hl. unfold der_len_spec, DER.der_len. destruct (l <? 128); [reflexivity|].
+  rewrite (be_min_min_be (DER.zfuel l) 64); [reflexivity | | simpl Z.of_nat; lia].
+  split; [lia|]. unfold DER.zfuel. rewrite Z.abs_eq by lia.
+  destruct (Z.eq_dec l 0); [subst; simpl; lia|].
+  rewrite Nat2Z.inj_succ, Z2Nat.id by (apply Z.log2_nonneg).
+  apply Z.log2_spec. lia.
+Qed.
+
+(* MarshalLengthBytes writes the codec's length octets, AddASNAppTag is the codec's APPLICATION TLV *)
+Corollary marshal_len_codec l : 0 <= l < 2 ^ 56 -> marshal_len l = Ok (DER.der_len l).
+Proof.
+  intros. rewrite marshal_len_is_der by assumption. rewrite der_len_spec_codec; [reflexivity|].
+  change (2 ^ 56) with 72057594037927936 in *. simpl Z.of_nat. lia.
+Qed.
+
+Corollary add_app_tag_codec b tag : 0 <= tag < 31 -> zlen b < 2 ^ 63 ->
+  add_app_tag b tag = DER.tlv (DER.ident 1 true tag) b.
+Proof.
+  intros Ht Hb. unfold add_app_tag, ident_octets, DER.tlv, DER.ident.
+  destruct (Z.ltb_spec tag 31); [|lia]. cbn [app].
+  rewrite der_len_spec_codec by (pose proof (zlen_nonneg b); change (2 ^ 63) with 9223372036854775808 in *; simpl Z.of_nat; lia).
+  f_equal; lia.
 Qed.
 
 (* hypotheses are satisfiable / concrete instances *)
